@@ -24,7 +24,26 @@ ASSUMPTIONS = [
     "numpy backend; both reinterpreters and FUNSOR_TYPECHECK on/off are covered by world configuration",
 ]
 
-SCHED_ALPHABET = ["eager", "lazy", "reflect", "normalize", "memoize:eager", "memoize:lazy", "lazy", "reflect"]
+SCHED_ALPHABET = [
+    "eager",
+    "lazy",
+    "reflect",
+    "normalize",
+    "memoize:eager",
+    "memoize:lazy",
+    "lazy",
+    "reflect",
+    # orders of nesting the context managers (innermost total interpretation wins)
+    "eager>lazy",
+    "lazy>eager",
+    "normalize>lazy>memoize",
+    "lazy>memoize>normalize",
+    "reflect>memoize>lazy",
+    "memoize>lazy>memoize",
+    "sequential>lazy",
+    "moment_matching>normalize",
+    "lazy>reflect>memoize",
+]
 FORCES = ["reinterpret", "reinterpret", "normalize", "sequential", "moment_matching", "memoize_reinterpret"]
 EVENTS = ["gc", "cache_drop", "gensym_jump", "failed_attempt", "none", "none"]
 
@@ -246,7 +265,7 @@ def run_schedules(payload):
             stats["errors"] += 1
             continue
         got = got["res"]
-        if any(s != "eager" for s in spec["schedule"]):
+        if any(s not in ("eager", "lazy>eager") for s in spec["schedule"]):
             stats["nontrivial"] += 1
         for k, v in got["fired"].items():
             stats["faults"][k] = stats["faults"].get(k, 0) + v
